@@ -239,6 +239,13 @@ def run(run):
     for gen in (check_k_fold_pattern, check_k_fold_rdm, check_of_k, check_leave_one_out):
         for ck in gen(run, E):
             fails += ck.failed
+    # cross-validated evaluation: parameters are fitted on train_f only and the score of fold f is the comparison with test_f
+    # only (the deductive form of the non-interference clause; contract shared with C04)
+    from contracts import C04
+    E4 = C04.engine(run)
+    for ck in C04.check_crossval(run, E4, pid='C05'):
+        fails += ck.failed
+    finish_engine(E4, run)
     finish_engine(E, run)
     bds = [tier_c_folds(run, run.tier == 'thorough'), tier_c_noninterference(run, run.tier == 'thorough')]
     report_a_failures(run, fails, bds)
